@@ -1,6 +1,6 @@
 \* sanity of the monitor itself: P's own behaviours satisfy NoFlap
 CONSTANTS
-  NSet = {1, 2, 3}
+  NSet = {0, 1, 2, 3}
   MSSet = {0, 2, 3}
   CDSet = {0, 3}
   MaxT = 8
